@@ -147,7 +147,7 @@ CATALOG["GROW"] = {"drivers": [("grow", {"quick": 300, "thorough": 10000}, {})]}
 
 # properties whose clause is evaluated on every event of every trace run the whole catalogue
 GLOBAL_OWNERS = ("C03", "C12", "C14", "C17")
-CATALOGUE_SHARE = {"quick": 0.25, "thorough": 0.25}
+CATALOGUE_SHARE = {"quick": 0.25, "thorough": 0.1}
 
 
 def drivers_for(pid: str, tier: str):
